@@ -31,6 +31,14 @@ pub enum KOp {
     DeleteUser { user: u16 },
     LogoutCheck { user: u16 },
     Restart,
+    /// one pass of the server's expired-token cleaner
+    CleanTokens,
+    /// HTTP: log in, use the JWT, log out, the JWT (and a refresh with it) must be refused from then on
+    HttpLogoutCheck { user: u16 },
+    /// HTTP: log in, refresh the JWT: the old one is revoked, the new one works, a second refresh with the old one is refused
+    HttpRefreshCheck { user: u16 },
+    /// HTTP: log in and keep the JWT as an open session (checked after every step)
+    HttpSession { user: u16 },
 }
 
 #[derive(Debug, Clone, PartialEq, Serialize, Deserialize)]
@@ -71,6 +79,12 @@ struct Interp<'a> {
     out: Outcome,
     step: usize,
     stale_tried: bool,
+    /// JWTs handed out over HTTP: (token, user id, revoked)
+    jwts: Vec<(String, u32, bool)>,
+}
+
+fn json_str(s: &str) -> String {
+    serde_json::to_string(s).unwrap()
 }
 
 const TOKNAMES: [&str; 4] = ["tok", "ci-token", "001", "another"];
@@ -99,7 +113,7 @@ impl<'a> Interp<'a> {
     }
     fn start(&mut self) -> Check {
         node::set_clock(self.clock);
-        match Node::start(&NodeCfg::default(), &self.dir.path) {
+        match Node::start(&NodeCfg { http: true, jwt_never_expire: true, ..NodeCfg::default() }, &self.dir.path) {
             Ok(n) => self.node = Some(n),
             Err(e) => return Err(self.fail("start-failed", format!("{e:?}"))),
         }
@@ -141,6 +155,79 @@ impl<'a> Interp<'a> {
                 None
             }
         }
+    }
+
+    /// HTTP login with a credential: Ok((user id, JWT)) or Err(status)
+    fn http_try(&self, c: &Cred) -> Result<Result<(u32, String), u16>, String> {
+        let addr = self.node().http_addr.unwrap();
+        let (path, body) = match c {
+            Cred::Password { username, password } => ("/users/login", format!("{{\"username\":{},\"password\":{}}}", json_str(username), json_str(password))),
+            Cred::Token { raw } => ("/personal-access-tokens/login", format!("{{\"token\":{}}}", json_str(raw))),
+        };
+        let (st, body) = crate::perms::http_request(addr, "POST", path, &body, None)?;
+        if st != 200 {
+            return Ok(Err(st));
+        }
+        let v: serde_json::Value = serde_json::from_str(&body).map_err(|e| format!("login answered 200 with a body that is not JSON ({e}): {body:?}"))?;
+        let uid = v.get("user_id").and_then(|x| x.as_u64()).ok_or_else(|| format!("no user_id in {body}"))? as u32;
+        let tok = v.get("access_token").and_then(|t| t.get("token")).and_then(|x| x.as_str()).ok_or_else(|| format!("no access_token in {body}"))?.to_string();
+        Ok(Ok((uid, tok)))
+    }
+    /// GET /personal-access-tokens with a JWT: Ok(names) or Err(status)
+    fn http_whoami(&self, jwt: &str) -> Result<Result<Vec<String>, u16>, String> {
+        let addr = self.node().http_addr.unwrap();
+        let (st, body) = crate::perms::http_request(addr, "GET", "/personal-access-tokens", "", Some(jwt))?;
+        if st != 200 {
+            return Ok(Err(st));
+        }
+        let v: serde_json::Value = serde_json::from_str(&body).map_err(|e| format!("not JSON ({e}): {body:?}"))?;
+        let mut names: Vec<String> = v.as_array().map(|a| a.iter().filter_map(|t| t.get("name").and_then(|n| n.as_str()).map(|s| s.to_string())).collect()).unwrap_or_default();
+        names.sort();
+        Ok(Ok(names))
+    }
+    fn model_token_names(&self, uid: u32) -> Vec<String> {
+        let mut v: Vec<String> = self.users.get(&uid).map(|u| u.tokens.iter().map(|t| t.name.clone()).collect()).unwrap_or_default();
+        v.sort();
+        v
+    }
+    /// a JWT that authenticated as `uid` must act as `uid`: it lists exactly uid's tokens
+    fn check_identity(&mut self, why: &str, jwt: &str, uid: u32, shown: &str) -> Check {
+        match self.http_whoami(jwt).map_err(|e| self.fail("http-io", e))? {
+            Ok(names) => {
+                let want = self.model_token_names(uid);
+                if names != want {
+                    return Err(self.fail("login-as-other-identity", format!("{why}: the HTTP session opened with {shown} (user {uid}) lists the tokens {names:?}, user {uid} owns {want:?}")).tag("identity").tag("transport:http"));
+                }
+            }
+            Err(st) => return Err(self.fail("valid-credential-refused", format!("{why}: the JWT just issued for {shown} (user {uid}) is refused with {st}")).tag("transport:http")),
+        }
+        Ok(())
+    }
+    /// every JWT handed out earlier: revoked ones and those of deleted users must be refused, the others act as their user
+    fn jwt_battery(&mut self, why: &str) -> Check {
+        let jwts = self.jwts.clone();
+        for (jwt, uid, revoked) in jwts {
+            let r = self.http_whoami(&jwt).map_err(|e| self.fail("http-io", e))?;
+            self.out.count("jwt_session_checks", 1);
+            let exists = self.users.contains_key(&uid);
+            match (r, revoked, exists) {
+                (Ok(_), true, _) => return Err(self.fail("served-after-logout", format!("{why}: a JWT of user {uid} that was revoked (logout / refresh) is accepted again")).tag("transport:http")),
+                (Ok(_), false, false) => return Err(self.fail("invalid-credential-accepted", format!("{why}: a JWT issued to user {uid} is still served after the user was deleted")).tag("transport:http").tag("cred:jwt")),
+                (Ok(names), false, true) => {
+                    let want = self.model_token_names(uid);
+                    if names != want {
+                        return Err(self.fail("login-as-other-identity", format!("{why}: the open HTTP session of user {uid} lists the tokens {names:?}, the user owns {want:?}")).tag("identity").tag("transport:http"));
+                    }
+                }
+                (Err(st), false, true) => {
+                    if self.users[&uid].active {
+                        return Err(self.fail("valid-credential-refused", format!("{why}: the unrevoked JWT of active user {uid} is refused with {st}")).tag("transport:http"));
+                    }
+                }
+                (Err(_), _, _) => self.stale_tried = true,
+            }
+        }
+        Ok(())
     }
 
     fn battery(&mut self, why: &str) -> Check {
@@ -186,7 +273,27 @@ impl<'a> Interp<'a> {
                     self.stale_tried = true;
                 }
             }
+            // the same credential over HTTP
+            let hr = self.http_try(&c).map_err(|e| self.fail("http-io", e))?;
+            self.panics("http login")?;
+            self.out.count("http_login_attempts", 1);
+            let ctag = match c {
+                Cred::Token { .. } => "cred:token",
+                _ => "cred:password",
+            };
+            match (hr, want) {
+                (Ok((uid, jwt)), Some(owner)) => {
+                    if uid != owner {
+                        return Err(self.fail("login-as-other-identity", format!("{why}: {shown} belongs to user {owner} but the HTTP login answered user {uid}")).tag("identity").tag("transport:http"));
+                    }
+                    self.check_identity(why, &jwt, owner, &shown)?;
+                }
+                (Ok((uid, _)), None) => return Err(self.fail("invalid-credential-accepted", format!("{why}: {shown} is not valid now but the HTTP login authenticated it as user {uid}")).tag(ctag).tag("transport:http")),
+                (Err(st), Some(owner)) => return Err(self.fail("valid-credential-refused", format!("{why}: {shown} is the current credential of active user {owner} but the HTTP login answered {st}")).tag(ctag).tag("transport:http")),
+                (Err(_), None) => {}
+            }
         }
+        self.jwt_battery(why)?;
         Ok(())
     }
 
@@ -443,6 +550,102 @@ impl<'a> Interp<'a> {
                 self.out.label("logout-checked");
                 Ok(())
             }
+            KOp::CleanTokens => {
+                self.node().clean_tokens();
+                let now = self.clock;
+                let mut dropped = 0;
+                for u in self.users.values_mut() {
+                    let before = u.tokens.len();
+                    u.tokens.retain(|t| t.expiry_at.map(|e| e > now).unwrap_or(true));
+                    dropped += before - u.tokens.len();
+                }
+                if dropped > 0 {
+                    self.out.label("cleaner-removed-expired-token");
+                }
+                // the registry the users see equals the model: nothing live removed, nothing expired kept
+                let uids: Vec<u32> = self.users.keys().copied().collect();
+                for uid in uids {
+                    let u = self.users[&uid].clone();
+                    if !u.active {
+                        continue;
+                    }
+                    let n = self.node.as_ref().unwrap();
+                    let Ok(c) = n.tcp_login(&u.name, &u.password) else { continue };
+                    let r = n.block_on(async { c.get_personal_access_tokens().await });
+                    let _ = n.block_on(async { c.shutdown().await });
+                    let mut got: Vec<String> = match r {
+                        Ok(v) => v.into_iter().map(|t| t.name).collect(),
+                        Err(e) => return Err(self.fail("get-tokens-failed", format!("{e}"))),
+                    };
+                    got.sort();
+                    let want = self.model_token_names(uid);
+                    if got != want {
+                        return Err(self.fail("token-cleaner-wrong-set", format!("after a cleaner pass user {uid} has the tokens {got:?}; unexpired tokens per model: {want:?}")));
+                    }
+                }
+                Ok(())
+            }
+            KOp::HttpSession { user } | KOp::HttpLogoutCheck { user } | KOp::HttpRefreshCheck { user } => {
+                let Some(uid) = self.pick_user(user, true) else { return Ok(()) };
+                let u = self.users[&uid].clone();
+                if !u.active {
+                    return Ok(());
+                }
+                let cred = Cred::Password { username: u.name.clone(), password: u.password.clone() };
+                let Ok((got_uid, jwt)) = self.http_try(&cred).map_err(|e| self.fail("http-io", e))? else { return Ok(()) }; // judged by the battery
+                if got_uid != uid {
+                    return Ok(()); // judged by the battery
+                }
+                let addr = self.node().http_addr.unwrap();
+                let io = |e: String| Failure::new("C10", "http-io", e);
+                match op {
+                    KOp::HttpSession { .. } => {
+                        self.jwts.push((jwt, uid, false));
+                        self.out.label("http-session-kept-open");
+                    }
+                    KOp::HttpLogoutCheck { .. } => {
+                        self.check_identity("before logout", &jwt, uid, "its password")?;
+                        let (st, _) = crate::perms::http_request(addr, "DELETE", "/users/logout", "", Some(&jwt)).map_err(io)?;
+                        if st != 204 && st != 200 {
+                            return Err(self.fail("logout-failed", format!("HTTP logout of user {uid} answered {st}")).tag("transport:http"));
+                        }
+                        if let Ok(_) = self.http_whoami(&jwt).map_err(io)? {
+                            return Err(self.fail("served-after-logout", format!("the JWT of user {uid} is still served after DELETE /users/logout with it")).tag("transport:http"));
+                        }
+                        let (st, _) = crate::perms::http_request(addr, "POST", "/users/refresh-token", &format!("{{\"token\":{}}}", json_str(&jwt)), None).map_err(io)?;
+                        if st == 200 {
+                            return Err(self.fail("served-after-logout", format!("the JWT of user {uid} can still be refreshed into a new one after logout")).tag("transport:http"));
+                        }
+                        self.jwts.push((jwt, uid, true));
+                        self.out.label("http-logout-checked");
+                    }
+                    _ => {
+                        let body = format!("{{\"token\":{}}}", json_str(&jwt));
+                        let (st, rb) = crate::perms::http_request(addr, "POST", "/users/refresh-token", &body, None).map_err(io)?;
+                        if st != 200 {
+                            return Err(self.fail("refresh-refused", format!("refreshing a fresh JWT of user {uid} answered {st}")).tag("transport:http"));
+                        }
+                        let v: serde_json::Value = serde_json::from_str(&rb).unwrap_or_default();
+                        let new_uid = v.get("user_id").and_then(|x| x.as_u64()).unwrap_or(0) as u32;
+                        let new_jwt = v.get("access_token").and_then(|t| t.get("token")).and_then(|x| x.as_str()).unwrap_or("").to_string();
+                        if new_uid != uid {
+                            return Err(self.fail("login-as-other-identity", format!("refreshing the JWT of user {uid} produced a JWT for user {new_uid}")).tag("identity").tag("transport:http"));
+                        }
+                        self.check_identity("after refresh", &new_jwt, uid, "the refreshed JWT")?;
+                        if let Ok(_) = self.http_whoami(&jwt).map_err(io)? {
+                            return Err(self.fail("served-after-logout", format!("the old JWT of user {uid} is still served after it was exchanged by refresh-token")).tag("transport:http"));
+                        }
+                        let (st2, _) = crate::perms::http_request(addr, "POST", "/users/refresh-token", &body, None).map_err(io)?;
+                        if st2 == 200 {
+                            return Err(self.fail("served-after-logout", format!("the old JWT of user {uid} was accepted by refresh-token a second time")).tag("transport:http"));
+                        }
+                        self.jwts.push((jwt, uid, true));
+                        self.jwts.push((new_jwt, uid, false));
+                        self.out.label("http-refresh-checked");
+                    }
+                }
+                Ok(())
+            }
             KOp::Restart => {
                 if let Some(c) = self.admin.take() {
                     let _ = self.node().block_on(async { c.shutdown().await });
@@ -480,6 +683,10 @@ impl Engine for Creds {
             3 => any::<u16>().prop_map(|user| KOp::DeleteUser { user }),
             2 => any::<u16>().prop_map(|user| KOp::LogoutCheck { user }),
             3 => Just(KOp::Restart),
+            2 => Just(KOp::CleanTokens),
+            1 => any::<u16>().prop_map(|user| KOp::HttpLogoutCheck { user }),
+            1 => any::<u16>().prop_map(|user| KOp::HttpRefreshCheck { user }),
+            2 => any::<u16>().prop_map(|user| KOp::HttpSession { user }),
         ];
         proptest::collection::vec(op, 1..=max_ops).prop_map(|ops| KCase { ops }).boxed()
     }
@@ -495,6 +702,7 @@ impl Engine for Creds {
             out: Outcome::default(),
             step: 0,
             stale_tried: false,
+            jwts: vec![],
         };
         let r = it.run();
         let mut out = std::mem::take(&mut it.out);
@@ -514,7 +722,7 @@ impl Engine for Creds {
         out
     }
     fn rule(&self, _p: &Params) -> String {
-        "case = generated history of create user (active/inactive; usernames incl. digit-only and zero-padded ones such as '001'), status change, rename, password change (own / by root, right / wrong current password), token creation (never / expiring) and deletion, clock advances across expiry (frozen clock, hook H2), user deletion, logout, restart; after EVERY step every credential the harness has ever seen (current, stale, expired, deleted, other users', bogus) is tried on a fresh connection: it must authenticate iff the model says it is valid now AND as its owner's user id; at restart and at the end every file under the data directory is searched for every password and raw token (plain and base64); non-trivial = >=1 login attempt with a credential that is not valid at that moment, or a token owned by a digit-only username".into()
+        "case = generated history of create user (active/inactive; usernames incl. digit-only and zero-padded ones such as '001'), status change, rename, password change (own / by root, right / wrong current password), token creation (never / expiring) and deletion, clock advances across expiry (frozen clock, hook H2), user deletion, logout, restart, passes of the expired-token cleaner, and over HTTP: login + logout, login + refresh-token, sessions kept open; after EVERY step every credential the harness has ever seen (current, stale, expired, deleted, other users', bogus) is tried on a fresh TCP connection AND over HTTP: it must authenticate iff the model says it is valid now AND as its owner's user id (over HTTP the issued JWT must list exactly its owner's tokens), every JWT handed out earlier must be refused once revoked (logout / refresh) or once its user is deleted - also after a restart - and must otherwise still act as its user; after a cleaner pass every user's token list equals the model's unexpired tokens; at restart and at the end every file under the data directory is searched for every password and raw token (plain and base64); non-trivial = >=1 login attempt with a credential that is not valid at that moment, or a token owned by a digit-only username".into()
     }
     fn assumptions(&self, _p: &Params) -> Vec<String> {
         vec!["secrets shorter than 6 bytes are not searched for at rest (chance occurrences)".into(), "clock advances are whole seconds + 0.5 s so no login happens exactly at an expiry instant".into()]
